@@ -1,9 +1,15 @@
 #!/bin/sh
-# seeds sweep: quick tier of every check for several seeds on the unchanged tree
+# seeds sweep: quick tier of every check for several seeds on the unchanged tree. The checks run against a PRIVATE
+# worktree of /repo's HEAD (so that work going on in /repo meanwhile does not disturb the sweep); SEEDS / CHECKS / TIER
+# override the defaults.
 ./setup.sh > setup.log 2>&1 || { echo SETUP-FAILED; tail -20 setup.log; exit 1; }
-for s in 2 3 4 5 6 7; do
-  for i in 01 02 03 04 05 06 07 08 09 10 11 12 13 14 15 16 17 18 19 20; do
-    VERIF_SEED=$s ./check C$i > out-$s-C$i.log 2>&1
+wt=/tmp/sweep-wt-$$
+git -C /repo worktree add --detach $wt > /dev/null 2>&1 || { echo WORKTREE-FAILED; exit 1; }
+trap "git -C /repo worktree remove --force $wt" EXIT
+echo "sweep against $(git -C $wt rev-parse --short HEAD)"
+for s in ${SEEDS:-2 3 4 5 6 7}; do
+  for i in ${CHECKS:-01 02 03 04 05 06 07 08 09 10 11 12 13 14 15 16 17 18 19 20}; do
+    VERIF_REPO=$wt VERIF_SEED=$s ./check C$i ${TIER:+--tier $TIER} > out-$s-C$i.log 2>&1
     echo "seed=$s C$i rc=$? $(grep -c '^VIOLATION' out-$s-C$i.log) $(grep '^VIOLATION' out-$s-C$i.log | head -2 | tr '\n' ' ')"
   done
 done
